@@ -143,3 +143,18 @@ func (r *Rig) Do(svc, method, uri string, hdr http.Header, body []byte, id Ident
 	b, err := io.ReadAll(resp.Body)
 	return &Response{Status: resp.StatusCode, Header: resp.Header, Body: b, Err: err, ReqID: rid}
 }
+
+// KeepAlive makes a backend live the way its agent does - by polling for pending requests - and reports whether the
+// proxy has recorded the poll. A poll blocks for up to 30 s when nothing is pending, so it is sent with a short client
+// time-out; on a busy machine a short time-out can expire before the request has reached the handler, hence the
+// check of the stored last-seen time and the retries with longer time-outs.
+func (r *Rig) KeepAlive(backendID, agentEmail string) bool {
+	hdr := http.Header{"X-Inverting-Proxy-Backend-Id": {backendID}}
+	for _, d := range []time.Duration{100 * time.Millisecond, 250 * time.Millisecond, 500 * time.Millisecond, time.Second, 2 * time.Second, 4 * time.Second} {
+		r.Do("agent", "GET", "/agent/pending", hdr, nil, Identity{OAuthEmail: agentEmail}, d)
+		if t, ok := r.Fake.EntityTime("backendTracker", backendID, "LastSeen"); ok && time.Since(t) < time.Minute {
+			return true
+		}
+	}
+	return false
+}
